@@ -7,6 +7,7 @@ CONSTANTS
   LP = 1
   LQ = 1
   LR = 0
+  Ext = {}
 SPECIFICATION PathsSpec
 INVARIANT DesignX
 CHECK_DEADLOCK FALSE
